@@ -40,7 +40,7 @@ pub enum TimeoutCase {
     /// document limit: None = default (900 s), Some(0) = unlimited
     Virtual { total: Option<u64>, steps: Vec<Step> },
     /// real-time replay through the binary; limits in milliseconds; `slow` = index of the slow test (sleep 30) if any
-    Real { tests: usize, slow: Option<usize>, per_test_ms: Option<u64>, total_ms: Option<u64>, via_flag: bool, cram: bool, #[serde(default)] wait_ms: Option<u64>, #[serde(default)] stubborn: bool, #[serde(default)] closes_streams: bool },
+    Real { tests: usize, slow: Option<usize>, per_test_ms: Option<u64>, total_ms: Option<u64>, via_flag: bool, cram: bool, #[serde(default)] wait_ms: Option<u64>, #[serde(default)] stubborn: bool, #[serde(default)] closes_streams: bool, #[serde(default)] closes_late: bool },
     /// real-time replays of two behaviours of the pipe handling below scrut (the `subprocess` crate):
     /// kind 0: a command that floods stdout (300 MB as fast as it can) under a 100 ms limit;
     /// kind 1: a command that exits at once while more than a pipe buffer of its expression is still unread, default limits
@@ -193,17 +193,22 @@ impl Engine for VcTimeout {
                             if slow.is_none() && (tests != 2) {
                                 continue;
                             }
-                            real.push(TimeoutCase::Real { tests, slow, per_test_ms, total_ms, via_flag, cram, wait_ms: None, stubborn: false, closes_streams: false });
+                            real.push(TimeoutCase::Real { tests, slow, per_test_ms, total_ms, via_flag, cram, wait_ms: None, stubborn: false, closes_streams: false, closes_late: false });
                             // the same with a shell that ignores SIGTERM: the limit still has to end it
                             if slow.is_some() {
-                                real.push(TimeoutCase::Real { tests, slow, per_test_ms, total_ms, via_flag, cram, wait_ms: None, stubborn: true, closes_streams: false });
+                                real.push(TimeoutCase::Real { tests, slow, per_test_ms, total_ms, via_flag, cram, wait_ms: None, stubborn: true, closes_streams: false, closes_late: false });
                                 // .. and with a command that closes its stdout and stderr before it goes on running
-                                real.push(TimeoutCase::Real { tests, slow, per_test_ms, total_ms, via_flag, cram, wait_ms: None, stubborn: false, closes_streams: true });
+                                real.push(TimeoutCase::Real { tests, slow, per_test_ms, total_ms, via_flag, cram, wait_ms: None, stubborn: false, closes_streams: true, closes_late: false });
+                                // .. and one that does so shortly before the limit: the wait for the process that follows has
+                                // only the rest of the limit
+                                if !cram && per_test_ms != Some(400) {
+                                    real.push(TimeoutCase::Real { tests, slow, per_test_ms, total_ms, via_flag, cram, wait_ms: None, stubborn: false, closes_streams: true, closes_late: true });
+                                }
                             }
                             // the document limit elapses while the slow test case is still waiting (`wait` longer than the limit):
                             // the command then starts with no time left and has to time out at once
                             if !cram && slow.is_some() && total_ms.is_some() && per_test_ms != Some(400) {
-                                real.push(TimeoutCase::Real { tests, slow, per_test_ms, total_ms, via_flag, cram, wait_ms: Some(3000), stubborn: false, closes_streams: false });
+                                real.push(TimeoutCase::Real { tests, slow, per_test_ms, total_ms, via_flag, cram, wait_ms: Some(3000), stubborn: false, closes_streams: false, closes_late: false });
                             }
                         }
                     }
@@ -384,7 +389,7 @@ impl Engine for VcTimeout {
                     }
                 }
             }
-            TimeoutCase::Real { tests, slow, per_test_ms, total_ms, via_flag, cram, wait_ms, stubborn, closes_streams } => {
+            TimeoutCase::Real { tests, slow, per_test_ms, total_ms, via_flag, cram, wait_ms, stubborn, closes_streams, closes_late } => {
                 res.nontrivial.push(("C14", key));
                 res.counters.push(("real_time_replays", 1));
                 let sb = Sandbox::new();
@@ -395,7 +400,16 @@ impl Engine for VcTimeout {
                 }
                 for i in 0..*tests {
                     let is_slow = *slow == Some(i);
+                    // (limit that applies to the slow test, for the variant that closes its streams 400 ms before it)
+                    let applicable_ms = match (per_test_ms, total_ms) {
+                        (Some(p), Some(t)) => (*p).min(*t),
+                        (Some(p), None) => *p,
+                        (None, Some(t)) => *t,
+                        _ => 0,
+                    };
+                    let late = format!("echo $$ >> \"$VERIF_PIDFILE\"; sleep {}.{:03}; exec >&- 2>&-; sleep 30 & echo $! >> \"$VERIF_PIDFILE\"; wait", applicable_ms.saturating_sub(400) / 1000, applicable_ms.saturating_sub(400) % 1000);
                     let cmd = match (is_slow, *stubborn) {
+                        (true, false) if *closes_streams && *closes_late => late.as_str(),
                         (true, false) if *closes_streams => "echo $$ >> \"$VERIF_PIDFILE\"; exec >&- 2>&-; sleep 30 & echo $! >> \"$VERIF_PIDFILE\"; wait",
                         (true, false) => "echo $$ >> \"$VERIF_PIDFILE\"; sleep 30 & echo $! >> \"$VERIF_PIDFILE\"; wait",
                         (true, true) => "trap '' TERM INT HUP; echo $$ >> \"$VERIF_PIDFILE\"; sleep 30 & echo $! >> \"$VERIF_PIDFILE\"; wait",
@@ -437,7 +451,7 @@ impl Engine for VcTimeout {
                         }
                     }
                 });
-                let describe = || format!("{} document with {tests} test(s), slow test{} at {slow:?} (wait before it: {wait_ms:?} ms), per-test limit {per_test_ms:?} ms, document limit {total_ms:?} ms ({})", if *cram { "cram" } else { "markdown" }, if *stubborn { " (its shell ignores SIGTERM/SIGINT/SIGHUP)" } else if *closes_streams { " (closes stdout and stderr first)" } else { "" }, if *via_flag { "--timeout-seconds" } else { "front-matter" });
+                let describe = || format!("{} document with {tests} test(s), slow test{} at {slow:?} (wait before it: {wait_ms:?} ms), per-test limit {per_test_ms:?} ms, document limit {total_ms:?} ms ({})", if *cram { "cram" } else { "markdown" }, if *stubborn { " (its shell ignores SIGTERM/SIGINT/SIGHUP)" } else if *closes_late { " (closes stdout and stderr 400 ms before the limit)" } else if *closes_streams { " (closes stdout and stderr first)" } else { "" }, if *via_flag { "--timeout-seconds" } else { "front-matter" });
                 // expected: which limit applies to the slow test
                 let limit_ms: Option<u64> = match (slow, per_test_ms, total_ms) {
                     (None, _, _) => None,
@@ -482,8 +496,9 @@ impl Engine for VcTimeout {
                             }
                         }
                         let ms = run.wall.as_millis() as u64;
-                        if ms + 50 < limit || ms > limit + 2500 {
-                            res.findings.push(Finding::new("C14", "aborted-once-the-limit-elapsed", format!("{}: wall time within [{limit}, {}] ms", describe(), limit + 2500), format!("{ms} ms")).tag(if per_test_ms.is_some() && total_ms.is_some() { "both-limits-set" } else { "one-limit-set" }));
+                        let slack = if *closes_late { 1500 } else { 2500 };
+                        if ms + 50 < limit || ms > limit + slack {
+                            res.findings.push(Finding::new("C14", "aborted-once-the-limit-elapsed", format!("{}: wall time within [{limit}, {}] ms", describe(), limit + slack), format!("{ms} ms")).tag(if per_test_ms.is_some() && total_ms.is_some() { "both-limits-set" } else { "one-limit-set" }));
                         }
                         // the aborted command
                         if let Some((pid, alive)) = survivors.first() {
@@ -512,7 +527,7 @@ impl Engine for VcTimeout {
         match case {
             TimeoutCase::Virtual { total, steps } => steps.len() * 100 + steps.iter().map(|s| s.d as usize + s.timeout.unwrap_or(0) as usize + s.wait.unwrap_or(0) as usize * 3).sum::<usize>() + total.unwrap_or(0) as usize,
             TimeoutCase::Pipe { kind, cram } => 20_000 + *kind as usize * 2 + *cram as usize,
-            TimeoutCase::Real { tests, wait_ms, stubborn, closes_streams, .. } => 10_000 + tests + wait_ms.is_some() as usize * 10 + *stubborn as usize * 5 + *closes_streams as usize * 6,
+            TimeoutCase::Real { tests, wait_ms, stubborn, closes_streams, closes_late, .. } => 10_000 + tests + wait_ms.is_some() as usize * 10 + *stubborn as usize * 5 + *closes_streams as usize * 6 + *closes_late as usize,
         }
     }
 }
